@@ -3367,6 +3367,18 @@ static size_t ZSTD_buildSeqStore(ZSTD_CCtx* zc, const void* src, size_t srcSize)
                         (unsigned long)nbExternalSeqs
                     );
                     lastLLSize = blockCompressor(ms, &zc->seqStore, zc->blockState.nextCBlock->rep, src, srcSize);
+                    /* Block compressors up to lazy2 only maintain the first two repeat offsets.
+                     * The next block may come from the sequence producer again, whose repcode search
+                     * uses all three : rebuild the history the decoder will have after this block. */
+                    {   repcodes_t dRep;
+                        const seqDef* seq;
+                        ZSTD_memcpy(&dRep, zc->blockState.prevCBlock->rep, sizeof(dRep));
+                        for (seq = zc->seqStore.sequencesStart; seq < zc->seqStore.sequences; ++seq) {
+                            U32 const ll0 = (ZSTD_getSequenceLength(&zc->seqStore, seq).litLength == 0);
+                            ZSTD_updateRep(dRep.rep, seq->offBase, ll0);
+                        }
+                        ZSTD_memcpy(zc->blockState.nextCBlock->rep, &dRep, sizeof(dRep));
+                    }
             }   }
         } else {   /* not long range mode and no external matchfinder */
             ZSTD_blockCompressor const blockCompressor = ZSTD_selectBlockCompressor(
